@@ -17,6 +17,7 @@ EXPLANATION = (
     "_add_timedelta_/_subtract_timedelta mirror each other through total_seconds() and the operators route to "
     "them behind an isinstance guard; (5) add_duration's carry chain uses the right radix and target for every "
     "unit. NOT decided: exactness of the float `seconds` path, zoneinfo's rendering of the shifted instant."
+    ' Also: the month-end clamp every add() runs through (statement order, clamp expression) and what it relies on - the DAYS_PER_MONTHS rows and the Gregorian is_leap rule in both back ends.'
 )
 
 
